@@ -507,6 +507,7 @@ func (k *c09Case) exec(op string) string {
 			return "?"
 		})
 		k.c.Count("anc:" + map[bool]string{true: "found", false: out}[out != "none" && out != "panic"])
+		k.checkAnc(int(h), leaf, out, op)
 	case len(w) == 1 && w[0] == "dump":
 		out = k.dump()
 	case len(w) == 1 && w[0] == "shape":
@@ -515,6 +516,7 @@ func (k *c09Case) exec(op string) string {
 	k.c.Op(op, out)
 	if w[0] != "dump" && w[0] != "shape" && w[0] != "key" && k.db != nil {
 		k.checkViews(op)
+		k.checkTree(op)
 	}
 	return out
 }
@@ -782,8 +784,13 @@ func c09(c *Ctx) {
 		}
 	}
 	for i := 0; i < c.N; i++ {
-		c09Random(c, i)
+		if i%6 == 5 {
+			c09Boot(c, i) // the genesis bootstrap: several height-0 blocks, no stable block yet (c09_boot.go)
+		} else {
+			c09Random(c, i)
+		}
 	}
+	c09PutSites(c)
 }
 
 // key universe: 2-4 groups of addresses; a group shares all but the last nibble, so that its members
